@@ -175,7 +175,7 @@ def make_noise(psk_b64: str, expected_name: str | None, client_info: str = "veri
 
 # ------------------------------------------------------------------ chunking
 
-BUF_KINDS = ("bytes", "bytearray", "memoryview", "bytes_sub", "memoryview_ro")
+BUF_KINDS = ("bytes", "bytearray", "memoryview", "bytes_sub", "memoryview_ro", "memoryview_H", "array_H", "memoryview_I", "memoryview_2d", "ctypes_u16")
 
 
 def wrap_chunk(data: bytes, kind: str) -> tuple[Any, Any]:
@@ -189,6 +189,24 @@ def wrap_chunk(data: bytes, kind: str) -> tuple[Any, Any]:
     ba = bytearray(data)
     if kind == "bytearray":
         return ba, ba
+    n = len(ba)
+    # bytes-like objects whose items are wider than one byte / that have more than one dimension: len() counts items, not bytes
+    if kind == "memoryview_H" and n and n % 2 == 0:
+        return memoryview(ba).cast("H"), ba
+    if kind == "memoryview_I" and n and n % 4 == 0:
+        return memoryview(ba).cast("I"), ba
+    if kind == "memoryview_2d" and n >= 2 and n % 2 == 0:
+        return memoryview(ba).cast("B", shape=[2, n // 2]), ba
+    if kind == "array_H" and n and n % 2 == 0:
+        import array  # noqa: PLC0415
+
+        a = array.array("H")
+        a.frombytes(bytes(ba))
+        return a, None
+    if kind == "ctypes_u16" and n and n % 2 == 0:
+        import ctypes  # noqa: PLC0415
+
+        return (ctypes.c_uint16 * (n // 2)).from_buffer(ba), ba
     return memoryview(ba), ba
 
 
